@@ -416,7 +416,11 @@ def build_level(sx: SymExec):
     })
     dflt = {k: d for k, d, _, _ in loader}
     cons = [("tf_adjustment_column", ("C", None), "tf_adjustment_weight", [("C", dflt["tf_adjustment_weight"])]),
-            ("tf_adjustment_column", ("C", None), "tf_minimum_u_value", [("C", dflt["tf_minimum_u_value"])])]
+            ("tf_adjustment_column", ("C", None), "tf_minimum_u_value", [("C", dflt["tf_minimum_u_value"])]),
+            # a null level carries no m / u: as_dict raises for one that does, and the checker refuses
+            # class assignments for which the pipeline can only raise (validated on real levels by wfb in X)
+            ("is_null_level", ("C", True), "m_probability", [("C", None)]),
+            ("is_null_level", ("C", True), "u_probability", [("C", None)])]
     p1 = Pipeline("level_roundtrip", [st_level], lvl_fields, {p: ("field", p) for p in lvl_params}, cons,
                   doc="table_ok t_current d_current: ComparisonLevel.as_dict then ComparisonLevel(**dict)")
     p1.paths = dict(stored.paths)
@@ -476,7 +480,9 @@ def build_level(sx: SymExec):
         else:
             spec3[p] = ("if", ("isnone", ("field", p)), ("const", dflt[p]), ("field", p))
     cons3 = [("tf_adjustment_column", ("C", None), "tf_adjustment_weight", [("C", None), ("C", dflt["tf_adjustment_weight"])]),
-             ("tf_adjustment_column", ("C", None), "tf_minimum_u_value", [("C", None), ("C", dflt["tf_minimum_u_value"])])]
+             ("tf_adjustment_column", ("C", None), "tf_minimum_u_value", [("C", None), ("C", dflt["tf_minimum_u_value"])]),
+             ("is_null_level", ("C", True), "m_probability", [("C", None)]),
+             ("is_null_level", ("C", True), "u_probability", [("C", None)])]
     p3 = Pipeline("level_construction", [st_create, st_level], cl_in, spec3, cons3,
                   doc="level dict / CustomLevel(...).configure(...) -> create_level_dict -> ComparisonLevel -> "
                       "as_dict -> ComparisonLevel (what Comparison holds): every supplied option survives")
